@@ -494,6 +494,35 @@ impl<'a> RevDigits<'a> {
     { unimplemented!() }
 }
 
+/// num-bigint `BigUint::iter_u32_digits()`: the base-2^32 words, least significant first, no leading zero word.
+/// Explicit-state stand-in (same method name `next`), assumed semantics.
+#[verifier::external_body]
+pub struct U32Digits<'a> { it: core::slice::Iter<'a, u32> }
+pub open spec fn wle(s: Seq<u32>) -> int
+    decreases s.len()
+{
+    if s.len() == 0 { 0 } else { s[0] as int + 0x1_0000_0000 * wle(s.drop_first()) }
+}
+impl<'a> U32Digits<'a> {
+    pub uninterp spec fn words(&self) -> Seq<u32>;
+    pub uninterp spec fn pos(&self) -> int;
+    #[verifier::external_body]
+    pub fn next(&mut self) -> (ret: Option<u32>)
+        ensures final(self).words() == old(self).words(),
+                0 <= old(self).pos() <= old(self).words().len(),
+                old(self).pos() < old(self).words().len() ==> ret == Some(old(self).words()[old(self).pos()]) && final(self).pos() == old(self).pos() + 1,
+                old(self).pos() >= old(self).words().len() ==> ret.is_none() && final(self).pos() == old(self).pos()
+    { unimplemented!() }
+}
+impl BigUint {
+    #[verifier::external_body]
+    pub fn iter_u32_digits(&self) -> (ret: U32Digits<'_>)
+        ensures wle(ret.words()) == self@, ret.pos() == 0,
+                ret.words().len() > 0 ==> ret.words().last() != 0,
+                ret.words().len() < 0x1000_0000_0000_0000
+    { unimplemented!() }
+}
+
 /// size assumption in bit form: |n| < 2^(2^60)
 #[verifier::external_body]
 pub proof fn lemma_size_bits(n: &BigUint) ensures (n@ as int) < pow2i(0x1000_0000_0000_0000) {}
